@@ -7,7 +7,7 @@ LEVEL = "proof"
 
 def run(ctx):
     # theorems + backtracker-state correspondence (model replays the observed histories)
-    generic.standard(ctx, "Props_C13", "c13bt", "backtracker-histories", lists=("M",))
+    generic.standard(ctx, ["Props_C13", "Props_Dfa"], "c13bt", "backtracker-histories", lists=("M",))
     # `bt-vs-stdlib` differences are compile-level findings (C15/C01: case folding, invalid UTF-8) seen through the
     # backtracker; C13's verdict is aged-vs-fresh only, so they are kept as a note here and judged by C14/C15.
     other = [v for v in ctx.violations if v.get("kind") == "bt-vs-stdlib"]
@@ -32,4 +32,8 @@ def run(ctx):
         "haystacks, offsets, histories. The original wrap code is refuted (bt_wrap_refuted_original_16). Correspondence: observed "
         "histories on one BacktrackerState are replayed on the model inside Coq (results, Generation, len/cap); API level: call "
         "histories (11 APIs, long-then-short haystacks, GC, tiny DFA limits forcing cache clears) on one Regex vs a fresh value per "
-        "call. Not modelled: PikeVM scratch, lazy-DFA cache contents (observed through the API histories only).")
+        "call. Lazy DFA cache (Dfa.v, DfaCache.v; theorems in Props_Dfa.v, correspondence run by C14): for every "
+        "cache satisfying the invariant - the empty cache does, lookup / insert / clear preserve it - the search returns the pure "
+        "DFA answer or falls back, so two histories that do not fall back give the same answer (dfa_search_history_independent); "
+        "the two history-dependence defects this model exposed in the original code (state key of the sorted set, acceleration "
+        "on incomplete rows) are kept as `_original_refuted` theorems. Not modelled: PikeVM scratch.")
